@@ -872,7 +872,7 @@ theorem run_more (c : Cfg) (r : Result) (h : runForever c = some r) (hb : c.caus
   unfold runForever at h
   simp only [hb, Bool.false_eq_true, if_false] at h
   unfold finish at h
-  simp only [consumePending, Bool.false_and, Bool.false_eq_true, if_false] at h
+  simp only [consumePending, second_any_false, Bool.or_false, Bool.false_and, Bool.false_eq_true, if_false] at h
   split at h
   · simp at h
   · simp only [Option.some.injEq] at h
